@@ -22,6 +22,8 @@ func main() {
 		os.Exit(cmdVerify(os.Args[2:]))
 	case "replay":
 		os.Exit(cmdReplay(os.Args[2:]))
+	case "genctor":
+		os.Exit(cmdGenCtor(os.Args[2:]))
 	default:
 		fmt.Println("unknown command", os.Args[1])
 		os.Exit(2)
@@ -202,7 +204,7 @@ func cmdVerify(args []string) int {
 		}
 	}
 	_ = coneN
-	if (*prop == "C17" || *prop == "") && (*fn == "" || strings.Contains(*fn, "helper.Bst.searchNode")) {
+	if (isBstProp(*prop) || *prop == "") && (*fn == "" || strings.Contains(*fn, "helper.Bst.searchNode")) {
 		if fi := w.Funcs["helper.Bst.searchNode"]; fi != nil {
 			eng.fi = fi
 			eng.frames = []frame{{pkg: fi.Pkg, fi: fi}}
@@ -300,6 +302,11 @@ func cmdVerify(args []string) int {
 				o.ShortTimeout = true
 			}
 		}
+	}
+	noSecondPass = map[string]bool{}
+	for _, k := range known {
+		// a listed finding that stays undecided is expected to: no second attempt
+		noSecondPass[k.Obl] = true
 	}
 	dischargeAll(all, dir, timeout, 14)
 	solveT := time.Since(t0) - loadT - genT
@@ -444,7 +451,7 @@ func cmdVerify(args []string) int {
 		fmt.Printf("VIOLATION property=%s replay=%s%s\n", pid, path, suffix)
 	}
 	var bounded []map[string]interface{}
-	if (*prop == "C17") && *fn == "" {
+	if isBstProp(*prop) && *fn == "" {
 		ml := 6
 		if *tier == "thorough" {
 			ml = 7
